@@ -2,7 +2,7 @@
 import importlib
 import os
 
-MODULES = ['g_complexity']
+MODULES = ['g_complexity', 'g_aminoacids', 'g_sequence']
 
 
 def run(repo, outdir):
